@@ -134,6 +134,13 @@ class V:
         if not cond:
             raise AssumptionFailed(text or "assumption does not hold for the replayed model")
 
+    def prefer(self, cond):
+        """A wish for the models handed to the concrete replay (e.g. 'these two inputs differ' when the harness tells
+        calls apart by content).  It never enters a deciding query: a model is first looked for with the wishes, then
+        without."""
+        if self.mode == "sym" and isinstance(cond, Sym):
+            core.ctx().prefs.append(core.zbool(cond))
+
     @property
     def symbolic(self):
         return self.mode == "sym"
